@@ -959,10 +959,10 @@ class DiscretizedRateChange(DiscretizedDemographicEvent):
 
         # if this event starts after the epoch, we take the start time
         if self.start_time > epoch.start_time:
-            epoch.end_time = self.start_time
+            epoch.end_time = min(epoch.end_time, self.start_time)
         else:
             n_steps = np.ceil((epoch.start_time - self.start_time + 1e-10) / self.step_size)
-            epoch.end_time = self.start_time + n_steps * self.step_size
+            epoch.end_time = min(epoch.end_time, self.start_time + n_steps * self.step_size)
 
     def _apply(self, epoch: Epoch):
         """
